@@ -14,6 +14,9 @@ CLAIMED = {
  "C05": dict(cat="proof", technique="moment conditions: extracted wrapper-resolved stencils applied to generic degree<=2 (ENO3: branchwise cubic/quadratic) polynomials with symbolic coefficients vs documented continuous operators; closed form of the coordinate field",
              text="Every differential stencil equals its documented continuous operator on all polynomials of degree <= 2 (sign, axis and prefactor conventions included); ENO3 per upwind-branch combination; coordinate field axis convention from _init_domain.",
              note="trusted A1, A2, A7; continuous operators written from docstrings/comments in sa/props/c05.py", ref="5 C05"),
+ "C10": dict(cat="other", technique="abstract instantiation of the interaction class with a stub forcing grid; enumeration of all stores into the integral / flow velocity / instance attributes over the traces of every entry point; elementwise reading of the whole-array numba kernels; accumulate/assign classification of the spread; package-wide AST who-may-write scan",
+             text="Single writer of the position-mismatch integral (time_step, Euler forward with the caller's dt, time += dt once); evaluation entry points never write it, the flow velocity, or instance attributes; extracted law V = u_interp - u_body, F = k P + c V; both coefficients scaled by max spacing^(dim-1) exactly once; every pipeline stage reads what the previous stage produced; reset mode = zero fill + accumulate, otherwise accumulate only. By induction over the single writer this is the property for all call histories.",
+             note="body-state purity of concrete forcing grids is analysed with C08/C09; trusted A4, A7", ref="5 C10"),
  "C12": dict(cat="proof", technique="composition of extracted stencils as polynomial substitution; normal form of the difference must be 0",
              text="div curl = 0, div(update-id) = 0, 2D div(curl psi) = 0, curl curl psi = wide negative Laplacian, update_from_forcing = id + library curl, penalised update = forcing update of the difference; monitor binding and write set from the simulator trace.",
              note="exact arithmetic at cells whose stencils do not touch the ring; trusted A1, A2, A7", ref="5 C12"),
